@@ -36,6 +36,9 @@ def run(ctx) -> None:
     run_prerequisite(ctx, "C09", ("R1", "R3", "R4"), "R6")
     ctx.rule("R8", "prerequisite: the next legitimate update is not refused - 'greater' between two versions of a non-PEP 440 pattern is pkg_resources' order (C16/R9)")
     run_prerequisite(ctx, "C16", ("R9",), "R8")
+    ctx.rule("R9", "prerequisite: 'a further update is always possible' - the build number always has a successor (C17/R1-R4) and a version ahead of today's date is bumped as it stands (C05/R4)")
+    run_prerequisite(ctx, "C17", ("R1", "R2", "R3", "R4"), "R9")
+    run_prerequisite(ctx, "C05", ("R4",), "R9")
     # "... which is strictly greater than the previous one, so a further update is always possible": the gate (C01) and the
     # round trip of what was rendered (C02) are what makes the next update start from a readable, smaller version
     ctx.rule("R7", "prerequisite: the announced version passed the gate (C01/R1-R3) and reads back under its own pattern (C02/R2-R5)")
